@@ -89,4 +89,22 @@ func NewPolicy(rawSpec interface{}) (policy Policy, err error)
   trusted
   flag allocates
   ensures err == nil ==> policy != nil && ifaceVal(policy) != 0
+
+ufunc policyName(p int) string
+iface (p Policy) Name() (n string)
+  pure
+  ensures n == policyName(ifaceVal(p))
+
+// ---- C10 / C13: every policy is built on an object of its own ----
+// NewPolicy unmarshals the user's YAML INTO what the kind's DefaultPolicy returns and hands that object to the
+// pipeline: the defaults must therefore be a fresh object on every call (a shared one would make every later
+// policy inherit the fields of the earlier ones, and be written while requests read it). The function literals
+// are the ones the package-level Kind variables are built with.
+func RetryKind.DefaultPolicy() (policy Policy)
+  flag allocates
+  ensures a-fresh-retry-policy-with-the-documented-defaults: typeIs(policy, "*RetryPolicy") && ifaceVal(policy) != 0 && fresh(ptr(ifaceVal(policy), "*RetryPolicy")) && ptr(ifaceVal(policy), "*RetryPolicy").MaxAttempts == 3 && ptr(ifaceVal(policy), "*RetryPolicy").WaitDuration == "500ms" && ptr(ifaceVal(policy), "*RetryPolicy").BackOffPolicy == "random"
+func CircuitBreakerKind.DefaultPolicy() (policy Policy)
+  flag allocates
+  ensures a-fresh-circuit-breaker-policy: typeIs(policy, "*CircuitBreakerPolicy") && ifaceVal(policy) != 0 && fresh(ptr(ifaceVal(policy), "*CircuitBreakerPolicy"))
+  ensures with-defaults-inside-the-breakers-domain: let p = ptr(ifaceVal(policy), "*CircuitBreakerPolicy") in p.FailureRateThreshold == 50 && p.SlowCallRateThreshold == 100 && p.SlidingWindowType == "COUNT_BASED" && p.SlidingWindowSize == 100 && p.PermittedNumberOfCallsInHalfOpen == 10 && p.MinimumNumberOfCalls == 100 && p.SlowCallDurationThreshold == "1m" && p.WaitDurationInOpen == "1m"
 @*/
